@@ -161,7 +161,7 @@ func check(c Case) pbt.Verdict {
 	budget := 20 * time.Second
 	if relative {
 		// not screened for termination by the reference interpreter: a program that runs long is not compared
-		budget = 300 * time.Millisecond // (a runaway non-tail recursion grows the Go stack by ~0.5 GB/s: the context must end well before the 1 GB limit)
+		budget = 300 * time.Millisecond // (a non-tail recursion grows the Go stack by ~0.5 GB/s; the stack limit of 1 GB is fatal)
 		if c.Repeat > 20 {
 			c.Repeat = 20
 		}
@@ -174,7 +174,7 @@ func check(c Case) pbt.Verdict {
 	lisp.VerifResetStepper()
 	started := time.Now()
 	a := run(ctx, c, nil)
-	if relative && (time.Since(started) > 250*time.Millisecond || (a.r.Err != nil && strings.Contains(a.r.Err.Error(), "timeout"))) {
+	if relative && (time.Since(started) > 50*time.Millisecond /* deep but finite recursions must stay far from the stack limit on every route */ || (a.r.Err != nil && strings.Contains(a.r.Err.Error(), "timeout"))) {
 		return pbt.Verdict{Excluded: "model-unspecified-and-long-running", Labels: []string{"excluded:" + why + " (long running)"}}
 	}
 	ctx2, cancel2 := context.WithTimeout(context.Background(), 20*time.Second)
